@@ -11,13 +11,12 @@
    a documented API of separateModes) stays: proved below are its refutation with a witness outside [dom], and -- for ALL bot states, no size bound -- the effect of the
    handlers the property is about.  The trace-level theorem
      forall acts, dom acts = true -> agree after every action
-   is proved at the END of this file for a sub-domain of actions (C10_simulation_trace_partial: induction over the
-   history with the lookup-level relation Inv of Inv.v); for the remaining actions [example_in_domain_agrees] in Sim.v
-   is only an example, and the differential run checks them on every generated history.  The theorems named
+   is proved at the END of this file for ALL of [dom] (C10_simulation_trace: induction over the history with the
+   lookup-level relation Inv of Inv.v).  The theorems named
    ..._partial are full statements about the handlers (all states) whose step case is not yet part of the trace proof. *)
 From Coq Require Import List NArith ZArith Bool.
 Import ListNotations.
-Require Import Base.Wire Base.PyStr C10.Model C10.Lemmas C10.Handlers C10.SrvLemmas C10.Feed C10.Inv C10.Sim C10.Agree C10.Step C10.Trace.
+Require Import Base.Wire Base.PyStr C10.Model C10.Lemmas C10.Handlers C10.SrvLemmas C10.Feed C10.Inv C10.Sim C10.Agree C10.Step C10.Keys C10.Trace.
 
 (* ---- refutations of the simulation: concrete conformant histories outside [dom] after which the bot model
         disagrees with the server (replayed on the implementation: findings F10, F10b, F10c) ---- *)
@@ -174,33 +173,30 @@ Theorem C10_relation_implies_agree : forall s b, Inv s b -> agree s b = true.
 Proof. exact Inv_agree. Qed.
 Print Assumptions C10_relation_implies_agree.
 
-(* Trace theorem, PARTIAL in the set of actions.  For every history, of any length, whose steps are all [proved_step]s the
-   reference server and the bot model, run in lock step from the connected start state, agree after every action.
-   INSIDE (step case proved, Step*.v): CONNECT; TOPIC; KICK with any number of victims (the bot included); QUIT; NICK
-   (real and case-only, other users and the bot itself); MODE with any accepted change list (o h v b k l and the flags
-   n t s m i p, mixed signs; parameters canonical as in [dom]); CHGHOST; WHO refresh; reconnect; PART with any list of
-   channels (other users and the bot); JOIN of another user with any list of channels (one multi-target message for the
-   channels the bot is on); the bot's own JOIN with any list of targets, each of them a channel nobody is on at that moment
-   (ONE multi-target JOIN message, then the full burst of every channel; targets it is already on or that are refused are
-   skipped).
-   STILL OUTSIDE: (1) the bot joining a channel that already has members (needs the 353 item loop, the 324 letter loop, the
-   367 and 352 loops); (2) a NAMES refresh (the same 353 item loop -- it needs the member keys to be canonical nick spellings,
-   which the reference server does not yet guarantee: it stores the actor's spelling).  These are covered by the
-   differential run only. *)
-Theorem C10_simulation_trace_partial :
+(* THE TRACE THEOREM.  For every history [acts] of any length inside [dom] (the only restrictions: mode parameters are
+   canonical under int(), finding F10c, and NAMES replies are multi-prefix), the reference server and the bot model, run in
+   lock step from the connected start state with multi-prefix negotiated (and userhost-in-names on or off), agree after
+   EVERY action.  Proof: induction over the history with the lookup-level relation [Inv] (Inv.v) and the server-only
+   invariant [skeys] (Keys.v: member keys are canonical valid nicks, one creation time); one step lemma per action kind
+   (Step*.v): CONNECT, JOIN of other users and of the bot itself with any target list (fresh or populated channels, the
+   full burst: JOIN, 332, the 353 item loop with multi-prefix sigils and userhost-in-names, 366, the 324 letter loop, 329,
+   the 367 loop, the 352 loop), PART lists, KICK with any victims, QUIT, NICK (incl. case-only and the bot's own), MODE (all
+   accepted letters), TOPIC, CHGHOST, NAMES refresh, WHO refresh, reconnect.  Nothing of [dom] is left outside.
+   Outside [dom] the statement is false: C10_simulation_refuted_intarg. *)
+Theorem C10_simulation_trace :
   forall nick0 prefix0 u h uh acts,
   valid_nick nick0 = true -> valid_uh u = true -> valid_uh h = true ->
-  run_proved nick0 uh (srv0 nick0 u h) acts = true ->
+  dom acts = true ->
   all_agree nick0 prefix0 true uh (srv0 nick0 u h) (reset nick0 prefix0) acts = true.
 Proof.
   intros nick0 prefix0 u h uh acts Hn Hu Hh Hr.
-  apply (trace_inv nick0 prefix0 uh Hn acts _ _ (Inv_start nick0 prefix0 u h Hn Hu Hh) Hr).
+  apply (trace_inv nick0 prefix0 uh Hn acts _ _ (Inv_start nick0 prefix0 u h Hn Hu Hh) (skeys_start nick0 u h) Hr).
 Qed.
-Print Assumptions C10_simulation_trace_partial.
+Print Assumptions C10_simulation_trace.
 
 (* the same from ANY related pair of states (the step case is not tied to the start state) *)
-Theorem C10_simulation_from_related_partial :
+Theorem C10_simulation_from_related :
   forall nick0 prefix0 uh acts s b, valid_nick nick0 = true ->
-  Inv s b -> run_proved nick0 uh s acts = true -> all_agree nick0 prefix0 true uh s b acts = true.
+  Inv s b -> Keys.skeys s -> dom acts = true -> all_agree nick0 prefix0 true uh s b acts = true.
 Proof. intros. apply trace_inv; assumption. Qed.
-Print Assumptions C10_simulation_from_related_partial.
+Print Assumptions C10_simulation_from_related.
